@@ -153,7 +153,7 @@ def VolumeMatrix(
     list_box, list_points = convert_configuration(snapshots)
     logger.info(f"Calculate the Voronoi volume matrix for configuration No.{nconfig}")
     box = list_box[nconfig]
-    points = list_points[nconfig]
+    points = np.array(list_points[nconfig])
     num_particles = points.shape[nconfig]
     matrixA = np.zeros((num_particles, num_particles * ndim))
 
